@@ -89,6 +89,10 @@ type C09Spec struct {
 	// still empty table and rendered after every row that joins it (and before
 	// and after a second AddHeaders): a long-lived wrapper of a growing table.
 	Staged bool `json:"staged,omitempty"`
+	// Grow (staged mode): after the build the table is widened that many times
+	// under the same wrappers (header extended by one name, a wider row, an
+	// attached row extended), with a render after every step.
+	Grow int `json:"grow,omitempty"`
 	// TwoTables: the first pre-built row is also attached to a second table and
 	// then extended by one cell (the second table learns of the new column, the
 	// first does not: its row is now longer than its column count).
@@ -137,7 +141,8 @@ func init() {
 		ModelFn:  "C09_model",
 		Rule: "tables built through the public API only (AddHeaders at any point / AddRowItems / NewRow+Add+AddRow / NewRowSizedFor / AppendNewRow then Add on the attached row / AddSeparator): every shape with header in {none,0,1,2 cells} and up to 3 rows over {separator,0,1,2 cells} with every row-building method, " +
 			"plus random tables to 6x5 with text-like items (strings incl. multi-line, trailing newlines, invalid UTF-8; runes; ints; nil; Stringers that declare a height and/or width disagreeing with their text, negative and zero included); " +
-			"each table is rendered under recover() by csv, html, json, markdown, texttable with every registered decoration, auto.Render for every listed style and an unknown style; " +
+			"a second, shorter or empty header; tables reaching 9..47 columns by the header, by one row or cell by cell; fields of 15..129 escapable characters; a row also attached to a second table and then extended (longer than the column count); " +
+			"each table is rendered under recover() by csv, html, json, markdown, texttable with every registered decoration, auto.Render for every listed style and an unknown style - on a fresh table each, on ONE table under every target twice (a third of the cases), and (a quarter) through ONE wrapper per target made around the empty table and rendered after every row, before and after a second AddHeaders, and after up to 3 further widenings (header extended by one name, a wider row, an attached row extended); " +
 			"a case is one table with all its renders; non-trivial when the table has at least one column; distinct = distinct (view, outcome classes)",
 		Exhaustive: "shapes (header x row-sequence up to length 3, each row by each building method) x all renderers and styles",
 		Gen: func(r *RNG, tier string) []json.RawMessage {
@@ -145,7 +150,7 @@ func init() {
 			n2 := 0
 			add := func(ts TableSpec) {
 				n2++
-				out = append(out, mustJSON(C09Spec{Table: ts, Shared: n2%3 == 0, Perm: r.U64() % 1000003, Staged: n2%4 == 1, TwoTables: n2%7 == 2}))
+				out = append(out, mustJSON(C09Spec{Table: ts, Shared: n2%3 == 0, Perm: r.U64() % 1000003, Staged: n2%4 == 1, Grow: n2 % 3, TwoTables: n2%7 == 2}))
 			}
 			// a second, shorter (or empty) header: the table stays as wide as it was
 			for _, k := range []int{0, 1, 2} {
@@ -161,6 +166,14 @@ func init() {
 					add(wideSpec(k, how, c09Item, r))
 				}
 			}
+			// fields made (almost) only of characters that an escaper expands, at the sizes of small scratch buffers, alone and after a longer plain field
+			for _, n := range []int{15, 16, 17, 31, 32, 33, 63, 64, 65, 127, 128, 129} {
+				for _, ch := range []string{`"`, "|", "<", "\n"} {
+					dense := strings.Repeat(ch, n)
+					h := []ItemSpec{Str("h"), Str(dense[:n/2] + "x")}
+					add(TableSpec{Header: &h, Rows: []RowSpec{{Cells: []ItemSpec{Str(dense), Str("y")}}, {Cells: []ItemSpec{Str(strings.Repeat("p", n)), Str(strings.Repeat(ch, n+1))}}, {Cells: []ItemSpec{Str(ch + dense), Str(dense[len(ch):])}}}})
+				}
+			}
 			// rows that grow by one column each, under a long-lived wrapper
 			{
 				var grow TableSpec
@@ -171,11 +184,13 @@ func init() {
 					}
 					grow.Rows = append(grow.Rows, RowSpec{How: k % 4, Cells: cs})
 				}
-				out = append(out, mustJSON(C09Spec{Table: grow, Staged: true}))
+				out = append(out, mustJSON(C09Spec{Table: grow, Staged: true, Grow: 2}))
 				h := []ItemSpec{Str("h")}
 				grow.Header = &h
 				grow.HeaderAt = 4
-				out = append(out, mustJSON(C09Spec{Table: grow, Staged: true}))
+				out = append(out, mustJSON(C09Spec{Table: grow, Staged: true, Grow: 3}))
+				h2 := []ItemSpec{Str("name"), Str("size")}
+				out = append(out, mustJSON(C09Spec{Table: TableSpec{Header: &h2, Rows: []RowSpec{{Cells: []ItemSpec{Str("a"), Str("1")}}}}, Staged: true, Grow: 3}))
 			}
 			// columns of boundary widths (glyph runs, padding runs) under every decoration
 			for _, w := range []int{62, 63, 64, 65, 100, 127, 128, 129, 190, 191, 192, 256, 300} {
@@ -303,6 +318,34 @@ func init() {
 					stage()
 					every.BuildStaged(t, stage)
 					stage()
+					// the table keeps growing under the same wrapper: the header is
+					// extended (same leading names, one more), a wider row arrives,
+					// an attached row is extended - a render after each step
+					for g := 0; g < sp.Grow; g++ {
+						if h := t.Headers(); h != nil {
+							names := make([]interface{}, 0, len(h)+1)
+							for i := range h {
+								names = append(names, h[i].Item())
+							}
+							t.AddHeaders(append(names, fmt.Sprintf("grown%d", g))...)
+							stage()
+						}
+						wide := make([]interface{}, t.NColumns()+1)
+						for i := range wide {
+							wide[i] = fmt.Sprintf("w%d.%d", g, i)
+						}
+						t.AddRowItems(wide...)
+						stage()
+						for _, row := range t.AllRows() {
+							if !row.IsSeparator() {
+								for want := t.NColumns() + 1; len(row.Cells()) < want; {
+									row.Add(tabular.NewCell("x"))
+								}
+								break
+							}
+						}
+						stage()
+					}
 				}
 			}
 			vc := view.Coq(true)
@@ -338,16 +381,19 @@ func init() {
 			sp := c09Parse(spec)
 			var out []json.RawMessage
 			for _, c := range shrinkTable(sp.Table) {
-				out = append(out, mustJSON(C09Spec{Table: c, Shared: sp.Shared, Perm: sp.Perm, Staged: sp.Staged, TwoTables: sp.TwoTables}))
+				out = append(out, mustJSON(C09Spec{Table: c, Shared: sp.Shared, Perm: sp.Perm, Staged: sp.Staged, Grow: sp.Grow, TwoTables: sp.TwoTables}))
 			}
 			if sp.Shared {
-				out = append(out, mustJSON(C09Spec{Table: sp.Table, Staged: sp.Staged, TwoTables: sp.TwoTables}))
+				out = append(out, mustJSON(C09Spec{Table: sp.Table, Staged: sp.Staged, Grow: sp.Grow, TwoTables: sp.TwoTables}))
 			}
 			if sp.Staged {
 				out = append(out, mustJSON(C09Spec{Table: sp.Table, Shared: sp.Shared, Perm: sp.Perm, TwoTables: sp.TwoTables}))
+				if sp.Grow > 0 {
+					out = append(out, mustJSON(C09Spec{Table: sp.Table, Shared: sp.Shared, Perm: sp.Perm, Staged: true, Grow: sp.Grow - 1, TwoTables: sp.TwoTables}))
+				}
 			}
 			if sp.TwoTables {
-				out = append(out, mustJSON(C09Spec{Table: sp.Table, Shared: sp.Shared, Perm: sp.Perm, Staged: sp.Staged}))
+				out = append(out, mustJSON(C09Spec{Table: sp.Table, Shared: sp.Shared, Perm: sp.Perm, Staged: sp.Staged, Grow: sp.Grow}))
 			}
 			return out
 		},
